@@ -188,18 +188,39 @@ def floordiv_int(a, b):
     return z3.If(b > 0, a / b, (-a) / (-b))
 
 
-def trunc_div_witness(ctx, a, b):
-    """int(a / b) for Int terms with b != 0: fresh quotient q with a = b*q + r, |r| < |b|, r has the
-    sign of a*b... (truncation toward zero).  Stated with explicit witnesses so that the nonlinear
-    facts are linear in q and r for a given b."""
+def floor_divmod(ctx, a, b):
+    """(q, r) with a = b*q + r and r in [0,b) for b>0, (b,0] for b<0 -- Python's // and % on ints.
+    A constant divisor uses the solver's own div/mod (linear).  A symbolic divisor gets explicit
+    witnesses, shared between all divisions of the same operands on the path, so that the nonlinear
+    product b*q occurs as one term and everything else is linear."""
+    if z3.is_int_value(b):
+        q = floordiv_int(a, b)
+        return q, a - b * q
+    cache = ctx.ghost.setdefault("divmod", {})
+    key = (a.get_id(), b.get_id())
+    if key in cache:
+        return cache[key][:2]
     q = ctx.fresh("int", "q").t
     r = ctx.fresh("int", "r").t
-    absb = z3.If(b >= 0, b, -b)
     ctx.pc.append(a == b * q + r)
-    ctx.pc.append(z3.And(r < absb, -absb < r))
-    # remainder has the sign of the dividend (or is zero): truncation toward zero
-    ctx.pc.append(z3.Or(r == 0, z3.And(a > 0, r > 0), z3.And(a < 0, r < 0)))
-    return q
+    ctx.pc.append(z3.Implies(b > 0, z3.And(0 <= r, r < b)))
+    ctx.pc.append(z3.Implies(b < 0, z3.And(b < r, r <= 0)))
+    # sign facts that follow from the definition (help the nonlinear solver)
+    ctx.pc.append(z3.Implies(z3.And(a >= 0, b > 0), q >= 0))
+    ctx.pc.append(z3.Implies(z3.And(a >= 0, b > 0), q <= a))
+    cache[key] = (q, r, a, b)   # keep the terms alive: ids are only unique among live terms
+    return q, r
+
+
+def trunc_div_witness(ctx, a, b):
+    """int(a / b) for Int terms, b != 0: truncation toward zero, from the floor quotient"""
+    q, r = floor_divmod(ctx, a, b)
+    return z3.If(z3.And(r != 0, (a < 0) != (b < 0)), q + 1, q)
+
+
+def ceil_div_witness(ctx, a, b):
+    q, r = floor_divmod(ctx, a, b)
+    return z3.If(r != 0, q + 1, q)
 
 
 def binop(ctx, op, a, b, inplace=False):
@@ -280,13 +301,13 @@ def binop(ctx, op, a, b, inplace=False):
         if ctx.branch(tb == 0):
             ctx.raise_exc("ZeroDivisionError", ("division by zero",))
         if nk == "int":
-            return mk(floordiv_int(ta, tb), "int")
+            return mk(floor_divmod(ctx, ta, tb)[0], "int")
         return mk(z3.ToReal(z3.ToInt(ta / tb)), "real")
     if isinstance(op, ast.Mod):
         if ctx.branch(tb == 0):
             ctx.raise_exc("ZeroDivisionError", ("modulo by zero",))
         if nk == "int":
-            return mk(ta - tb * floordiv_int(ta, tb), "int")
+            return mk(floor_divmod(ctx, ta, tb)[1], "int")
         return mk(ta - tb * z3.ToReal(z3.ToInt(ta / tb)), "real")
     if isinstance(op, ast.Pow):
         return power(ctx, a, b)
